@@ -87,4 +87,38 @@ theorem const_MinRetentionPolicyDuration_expected : const_MinRetentionPolicyDura
 theorem const_MarkDelete_expected : const_MarkDelete = "0" := by rfl
 theorem const_CancelDelete_expected : const_CancelDelete = "1" := by rfl
 
+/-- the functions the second model layer (OG/Meta/Model2.lean) transcribes -/
+theorem fingerprints2_expected : fingerprints2 = [
+  ("Data.UpdateIndexInfoTier", "f646eda6d8341354"),
+  ("Data.UpdatePtVersion", "5bd693590165e8a7"),
+  ("Data.ReSharding", "efa8cd9a51799ccf"),
+  ("Data.createIndexGroup", "1ee768ec6744efa7"),
+  ("Data.CreateShardGroupWithBounds", "691552c46ec309dd"),
+  ("Data.ExpandGroups", "0432295b1547e634"),
+  ("RetentionPolicyInfo.shardingType", "8aa7094c4b00dbef"),
+  ("RetentionPolicyInfo.firstMeasurement", "5d220ca70ab0948b"),
+  ("Data.MarkTakeover", "5719b6cf0c2c8195"),
+  ("Data.MarkBalancer", "4ef14fc767887c9d"),
+  ("Data.CreateSubscription", "bb07389541537d54"),
+  ("Data.DropSubscription", "d2581e106e9660d1"),
+  ("Data.CreateContinuousQueryBase", "8ae65d4121e34b52"),
+  ("Data.CreateContinuousQuery", "10d6136e8fab9eb8"),
+  ("Data.DropContinuousQueryBase", "1587cf87597d116c"),
+  ("Data.DropContinuousQuery", "70be251840753aee"),
+  ("Data.BatchUpdateContinuousQueryStat", "69afbb5b4d7631b1"),
+  ("ContinuousQueryInfo.UpdateContinuousQueryStat", "18f224978a59a619"),
+  ("Data.SetStream", "60a1eff3258465be"),
+  ("Data.CreateStream", "475f6ad5b13921a7"),
+  ("Data.DropStream", "87ba4c75f52b59cf"),
+  ("StreamInfo.Equal", "67c6416c40bf450b"),
+  ("Data.CheckStreamExistInDatabase", "83eeb44070bd2437"),
+  ("Data.CheckStreamExistInRetention", "98e027968138706c"),
+  ("Data.CheckStreamExistInMst", "3932371841b719ba"),
+  ("ApplyUpdatePtVersion", "09b2d2f56143f6d0"),
+  ("ApplyReSharding", "e19af32d4f39eb95"),
+  ("storeFSM.applyDropDatabaseCommand", "371dbd2c5a6c3a5c"),
+  ("storeFSM.applyCreateContinuousQueryCommand", "4f3310c8f5c6df30"),
+  ("storeFSM.applyDropContinuousQueryCommand", "7dd0ad6299f2f852"),
+  ("storeFSM.applyExpandGroupsCommand", "c3da5cf472978e0c")] := by rfl
+
 end OG.C16.Facts
